@@ -12,6 +12,9 @@ pub struct Instance {
     pub id: Arc<String>,
     pub ip: Arc<String>,
     pub port: u32,
+    // a non-finite weight (the open api accepts `weight=NaN`) is written as `null`: one such
+    // instance must not make the whole sync batch / snapshot that carries it unreadable
+    #[serde(deserialize_with = "actor_model::deserialize_weight")]
     pub weight: f32,
     pub enabled: bool,
     pub healthy: bool,
